@@ -167,6 +167,10 @@ func (fx *FuncCtx) globalVal1(obj *types.Var, e *Ev) Val {
 		init = gi.spec.Values[gi.index]
 	}
 	t := obj.Type()
+	if isErrorLike(t) && init != nil {
+		// a package-level error value: a fixed non-nil identity below 1000
+		return VErr{fmt.Sprintf("%d", p.globalErrID(obj.Name()))}
+	}
 	// fixed-size bool/int array filled in init()
 	if at, ok := t.Underlying().(*types.Array); ok && init == nil {
 		if b, ok := at.Elem().Underlying().(*types.Basic); ok && b.Info()&types.IsBoolean != 0 {
@@ -528,4 +532,18 @@ func (fx *FuncCtx) nameVal(v Val, hint string) Val {
 		return VBool{fx.name(sortBool, hint, x.T)}
 	}
 	return v
+}
+
+func (p *Prog) globalErrID(name string) int {
+	p.rxMu.Lock()
+	defer p.rxMu.Unlock()
+	if p.errIDs == nil {
+		p.errIDs = map[string]int{}
+	}
+	if id, ok := p.errIDs[name]; ok {
+		return id
+	}
+	id := len(p.errIDs) + 1
+	p.errIDs[name] = id
+	return id
 }
